@@ -25,6 +25,10 @@ func init() {
 			{"removeBit", "Nat", "0", "fall-back (pinned): `if rnd&1 == 0 { c.buf.Remove(elt) }`"},
 			{"keepOne", "Bool", "true", "fall-back (pinned): a low bit of 1 keeps the element"},
 			{"pShift", "Nat", "1", "fall-back (pinned): `c.p >>= 1`"},
+			{"newCap", "String", `"size"`, "fall-back (pinned): `NewCounter(size)` sets `cap: size`"},
+			{"newP", "String", `"math.MaxUint64"`, "fall-back (pinned): `NewCounter` sets `p: math.MaxUint64` (exact regime, k = 0)"},
+			{"newBuf", "String", `"make(mapset.Set[T])"`, "fall-back (pinned): `NewCounter` starts with an empty buffer"},
+			{"newRng", "String", `"rand.NewChaCha8(seed)"`, "fall-back (pinned): `NewCounter` draws from a ChaCha8 generator seeded from crypto/rand"},
 		}
 		set := func(name, val, doc string) {
 			for _, ft := range facts {
@@ -38,6 +42,90 @@ func init() {
 				x.emit("/-- %s -/\ndef %s : %s := %s\n", ft.doc, ft.name, ft.typ, ft.val)
 			}
 		}()
+		// --- the public constructor: `return &Counter[T]{buf: make(mapset.Set[T]), cap: size, p: math.MaxUint64, rng: rand.NewChaCha8(seed)}`
+		// (the model's `new size = {buf := [], cap := size, k := 0}`, p = MaxUint64 >> 0)
+		func() {
+			nc := x.Func(f, "", "NewCounter")
+			if nc == nil {
+				return
+			}
+			ps := nc.Type.Params.List
+			if len(ps) != 1 || len(ps[0].Names) != 1 || ps[0].Names[0].Name != "size" || x.Src(ps[0].Type) != "int" {
+				x.fail("NewCounter: parameter list is not `(size int)`: %s", x.Src(nc.Type.Params))
+				return
+			}
+			nb := nc.Body.List
+			if !x.wantStmts("NewCounter", nb, "var seed [32]byte", "*", "*") {
+				return
+			}
+			if seedIf, ok := nb[1].(*ast.IfStmt); !ok || seedIf.Else != nil || x.Src(seedIf.Init) != "_, err := crand.Read(seed[:])" ||
+				x.Src(seedIf.Cond) != "err != nil" || len(seedIf.Body.List) != 1 || !strings.HasPrefix(x.Src(seedIf.Body.List[0]), "panic(") {
+				x.fail("NewCounter: the seed is not read by `if _, err := crand.Read(seed[:]); err != nil { panic(…) }`: %s", x.Src(nb[1]))
+			}
+			ret, ok := nb[2].(*ast.ReturnStmt)
+			if !ok || len(ret.Results) != 1 {
+				x.fail("NewCounter: last statement is not `return &Counter[T]{…}`: %s", x.Src(nb[2]))
+				return
+			}
+			un, ok := ret.Results[0].(*ast.UnaryExpr)
+			if !ok || un.Op != token.AND {
+				x.fail("NewCounter: does not return the address of a composite literal: %s", x.Src(ret.Results[0]))
+				return
+			}
+			lit, ok := un.X.(*ast.CompositeLit)
+			if !ok || x.Src(lit.Type) != "Counter[T]" {
+				x.fail("NewCounter: does not return `&Counter[T]{…}`: %s", x.Src(un.X))
+				return
+			}
+			got := map[string]string{}
+			for _, e := range lit.Elts {
+				kv, ok := e.(*ast.KeyValueExpr)
+				if !ok {
+					x.fail("NewCounter: positional field in the literal: %s", x.Src(e))
+					return
+				}
+				k := x.Src(kv.Key)
+				if _, dup := got[k]; dup {
+					x.fail("NewCounter: field %s initialised twice", k)
+				}
+				got[k] = x.Src(kv.Value)
+			}
+			// every field of the struct is initialised explicitly, and the struct has no field the model does not know
+			var fields []string
+			for _, d := range x.File(f).Decls {
+				gd, ok := d.(*ast.GenDecl)
+				if !ok || gd.Tok != token.TYPE {
+					continue
+				}
+				for _, sp := range gd.Specs {
+					ts := sp.(*ast.TypeSpec)
+					if st, ok := ts.Type.(*ast.StructType); ok && ts.Name.Name == "Counter" {
+						for _, fl := range st.Fields.List {
+							for _, n := range fl.Names {
+								fields = append(fields, n.Name)
+							}
+						}
+					}
+				}
+			}
+			if strings.Join(fields, " ") != "buf cap p rng" {
+				x.fail("Counter: fields are not `buf cap p rng`: %v", fields)
+			}
+			for _, k := range []string{"buf", "cap", "p", "rng"} {
+				if _, ok := got[k]; !ok {
+					x.fail("NewCounter: field %s is not initialised in the literal", k)
+					return
+				}
+			}
+			if len(got) != 4 {
+				x.fail("NewCounter: the literal initialises other fields: %v", got)
+			}
+			set("newCap", fmt.Sprintf("%q", got["cap"]), "`NewCounter(size)`: the value of field `cap` in the returned literal")
+			set("newP", fmt.Sprintf("%q", got["p"]), "`NewCounter`: the value of field `p` (`math.MaxUint64` = exact regime, k = 0)")
+			set("newBuf", fmt.Sprintf("%q", got["buf"]), "`NewCounter`: the value of field `buf` (a fresh empty set)")
+			set("newRng", fmt.Sprintf("%q", got["rng"]), "`NewCounter`: the value of field `rng` (`seed` is 32 bytes read from crypto/rand)")
+		}()
+
 		add := x.Func(f, "Counter", "Add")
 		reset := x.Func(f, "Counter", "Reset")
 		count := x.Func(f, "Counter", "Count")
